@@ -84,13 +84,13 @@ def run(m, chk):
         "Static discharge of structural clauses of C18: normalize does not obtain the upper limit as x * (1/x) (rule R: IEEE arithmetic does not round that to 1 for every x, x / x does); shift / scale / normalize commit once, "
         "last (through the validated setter); generator results depend on degree, npts and cls / weights. Spacing, simplicity of interior knots and invariance of evaluation under reparametrisation are not decided."
     )
-    chk.decides = ["R (no multiplication by a reciprocal of an own element)", "COMMIT-LAST(shift, scale)", "DEP-MAY of the generators", 'NORMALIZE-PATHS', 'SIBLING-CAST (weight() converts no weight to the class of another weight)']
+    chk.decides = ["R (no multiplication by a reciprocal of an own element)", "COMMIT-LAST(shift, scale, normalize)", "DEP-MAY of the generators", 'NORMALIZE-PATHS', 'SIBLING-CAST (weight() converts no weight to the class of another weight)']
     chk.not_decided = ["equal spacing / simple interior knots", "N_i over s*U+a at s*u+a equals N_i over U at u"]
     q = KV + "normalize"
     ctx = r.root(q)
     fi = ctx.fi
     steps = [c for c in ctx.calls if c.kind in ("call", "augop", "setter") and any(f.name in ("scale", "__imul__", "__itruediv__", "internal", "shift") for f in c.callees)]
-    chk.floor("R", "scaling / shifting steps of normalize", len(steps), 2)
+    chk.floor("R", "scaling / shifting / rebuilding steps of normalize", len(steps), 1)
     n = 0
     for cr in steps:
         if not any(f.name in ("scale", "__imul__") for f in cr.callees):
@@ -107,10 +107,9 @@ def run(m, chk):
     normalize_paths(r, chk)
     for name in ("shift", "scale", "convert"):
         r.commit_last("COMMIT-LAST", KV + name)
-    # every write of normalize goes through an atomic own mutator / the validated setter
-    from .c15 import direct_stores
-    direct = [x for g, x in direct_stores(r, "_KnotVector__internal") if g.qual == q]
-    chk.ob("COMPOSITE", f"{q}: only delegates to atomic steps", not direct, loc=r.loc(ctx, fi.node), detail="" if not direct else f"{q} writes the payload directly", func=q, construct="direct store in composite")
+    # normalize commits once, last: a failure of its arithmetic (int / int collapsing two knots, an infinite knot) must not leave
+    # the vector shifted but not scaled
+    r.commit_last("COMMIT-LAST", q)
     for name, need in (("bezier", ["degree", "cls"]), ("integer", ["degree", "npts", "cls"]), ("uniform", ["degree", "npts", "cls"]), ("random", ["degree", "npts", "cls"]), ("weight", ["degree", "weights"])):
         gq = G + name
         c2 = r.root(gq)
